@@ -49,6 +49,58 @@ fn check_errors(stage: &str, src: &str, errs: &[CompileError]) -> Result<(), Str
     Ok(())
 }
 
+/// Spans of the nodes parsed out of f-string interpolations (they are relative to the interpolated text, the recorded
+/// finding C03-fstring-nested-diagnostic-location): read off the Debug text of the tree, inside every `FString(…)`.
+fn fstring_nested_spans(ast: &incan_syntax::ast::Program) -> std::collections::HashSet<(usize, usize)> {
+    let text = format!("{ast:?}");
+    let b = text.as_bytes();
+    let mut out = std::collections::HashSet::new();
+    let mut from = 0;
+    while let Some(p) = text[from..].find("FString(") {
+        let open = from + p + "FString".len();
+        // match the parenthesis, skipping quoted strings
+        let (mut i, mut depth, mut in_str) = (open, 0i64, false);
+        while i < b.len() {
+            let c = b[i];
+            if in_str {
+                if c == b'\\' { i += 1; } else if c == b'"' { in_str = false; }
+            } else if c == b'"' {
+                in_str = true;
+            } else if c == b'(' {
+                depth += 1;
+            } else if c == b')' {
+                depth -= 1;
+                if depth == 0 { break; }
+            }
+            i += 1;
+        }
+        let inner = &text[open..i.min(text.len())];
+        let mut q = 0;
+        while let Some(k) = inner[q..].find("Span { start: ") {
+            let rest = &inner[q + k + "Span { start: ".len()..];
+            let a: String = rest.chars().take_while(|c| c.is_ascii_digit()).collect();
+            if let Some(e) = rest.find("end: ") {
+                let bb: String = rest[e + 5..].chars().take_while(|c| c.is_ascii_digit()).collect();
+                if let (Ok(x), Ok(y)) = (a.parse(), bb.parse()) { out.insert((x, y)); }
+            }
+            q += k + 10;
+        }
+        from = open;
+    }
+    out
+}
+
+/// A diagnostic with an ill-formed span that is one of the f-string interpolation spans gets a tag.
+fn tag_fstring(ast: &incan_syntax::ast::Program, errs: &[CompileError], src: &str, m: String) -> String {
+    let nested = fstring_nested_spans(ast);
+    let bad: Vec<&CompileError> = errs.iter().filter(|e| span_ok(src, e.span.start, e.span.end).is_err()).collect();
+    if !bad.is_empty() && bad.iter().all(|e| nested.contains(&(e.span.start, e.span.end))) {
+        format!("[in-fstring-interpolation] {m}")
+    } else {
+        m
+    }
+}
+
 /// Returns a one-line verdict: `ok <stages reached> <error counts>` or `FAIL <why>`.
 pub fn pipeline(src: &str) -> String {
     let mut summary = String::new();
@@ -99,7 +151,7 @@ pub fn pipeline(src: &str) -> String {
         Err(m) => return format!("FAIL typecheck panicked: {m}"),
         Ok(Err(errs)) => {
             if let Err(m) = check_errors("check", src, &errs) {
-                return format!("FAIL {m}");
+                return format!("FAIL {}", tag_fstring(&ast, &errs, src, m));
             }
             summary.push_str(&format!("checkerr={} ", errs.len()));
         }
@@ -122,7 +174,7 @@ pub fn pipeline(src: &str) -> String {
         Ok(Ok(_)) => summary.push_str("emit"),
         Ok(Err(incan::backend::GenerationError::TypeCheck(errs))) => {
             if let Err(m) = check_errors("emit/check", src, &errs) {
-                return format!("FAIL {m}");
+                return format!("FAIL {}", tag_fstring(&ast, &errs, src, m));
             }
             summary.push_str("emit:typeerr");
         }
@@ -341,6 +393,58 @@ fn render_long(out: &mut Out) {
     }
 }
 
+/// Parseable programs with odd declaration graphs: `extends` edges in any direction (cycles, self loops, unknown
+/// bases), traits adopted anywhere or nowhere, and every kind of use that walks the graph (trait-typed parameter,
+/// inherited method / field, annotation with a base type, construction).
+fn graph_programs(rng: &mut Rng, n: usize) -> Vec<String> {
+    let mut v = Vec::new();
+    for _ in 0..n {
+        let k = 2 + rng.below(3) as usize; // classes
+        let nt = 1 + rng.below(2) as usize; // traits
+        let mut s = String::new();
+        for t in 0..nt {
+            if rng.chance(1, 3) {
+                s.push_str(&format!("trait T{t}:\n    def m{t}(self) -> int:\n        return 1\n\n"));
+            } else {
+                s.push_str(&format!("trait T{t}:\n    def m{t}(self) -> int: ...\n\n"));
+            }
+        }
+        let kind = *rng.pick(&["class", "class", "model"]);
+        for c in 0..k {
+            let base = match rng.below(5) {
+                0 => String::new(),
+                1 => format!(" extends C{c}"),
+                2 => " extends Missing".to_string(),
+                _ => format!(" extends C{}", rng.below(k as u64)),
+            };
+            let with = if rng.chance(1, 3) { format!(" with T{}", rng.below(nt as u64)) } else { String::new() };
+            s.push_str(&format!("{kind} C{c}{base}{with}:\n    f{c}: int\n\n    def g{c}(self) -> int:\n        return self.f{c}\n\n"));
+            if !with.is_empty() && rng.chance(1, 2) {
+                let t = with.trim_start_matches(" with T");
+                s.push_str(&format!("    def m{t}(self) -> int:\n        return 2\n\n"));
+            }
+        }
+        for t in 0..nt {
+            s.push_str(&format!("def use{t}(v: T{t}) -> int:\n    return v.m{t}()\n\n"));
+        }
+        s.push_str("def main() -> None:\n");
+        for c in 0..k {
+            let args = (0..k).filter(|_| rng.chance(2, 3)).map(|i| format!("f{i}=1")).collect::<Vec<_>>().join(", ");
+            s.push_str(&format!("    c{c} = C{c}({args})\n"));
+            match rng.below(6) {
+                0 => s.push_str(&format!("    print(use{}(c{c}))\n", rng.below(nt as u64))),
+                1 => s.push_str(&format!("    print(c{c}.g{}())\n", rng.below(k as u64))),
+                2 => s.push_str(&format!("    print(c{c}.f{})\n", rng.below(k as u64))),
+                3 => s.push_str(&format!("    b{c}: C{} = c{c}\n", rng.below(k as u64))),
+                4 => s.push_str(&format!("    print(c{c}.m{}())\n", rng.below(nt as u64))),
+                _ => s.push_str(&format!("    print(c{c} == c{c})\n")),
+            }
+        }
+        v.push(s);
+    }
+    v
+}
+
 pub fn run(out: &mut Out, tier: &str, seed: u64, scratch: &str) {
     let mut rng = Rng::new(seed);
     let thorough = tier == "thorough";
@@ -352,6 +456,25 @@ pub fn run(out: &mut Out, tier: &str, seed: u64, scratch: &str) {
     inputs.push(("regress:python-import-not-an-identifier".into(), "import python \"rfrom equests\" as pyreq\n\ndef main() -> None:\n    pass\n".into()));
     inputs.push(("regress:float-literal-overflows-to-infinity".into(), "def main() -> None:\n    x = 0.5e980\n    y = -1e999\n    match x:\n        1e999 => pass\n        _ => pass\n".into()));
     inputs.push(("regress:generic-type-nesting".into(), format!("def f(x: {}int{}) -> None:\n    pass\n", "List[".repeat(40), "]".repeat(40))));
+    let odd = [
+        ("self-newtype", "type A = newtype A\n\ndef main() -> None:\n    a = A(1)\n"),
+        ("newtype-cycle", "type A = newtype B\ntype B = newtype A\n\ndef f(a: A) -> B:\n    return a\n"),
+        ("model-of-itself", "model M:\n    m: M\n\ndef main() -> None:\n    x = M(m=M(m=1))\n    print(x.m.m.m)\n"),
+        ("enum-of-itself", "enum E:\n    Leaf\n    Node(E, E)\n\ndef d(e: E) -> int:\n    match e:\n        E.Leaf => 0\n        E.Node(l, r) => d(l) + d(r)\n"),
+        ("trait-requires-cycle", "@requires(a: int)\ntrait T:\n    def m(self) -> int:\n        return self.a\n\nclass K extends K with T:\n    b: int\n\ndef u(t: T) -> int:\n    return t.m()\n\ndef main() -> None:\n    print(u(K(b=1)))\n"),
+        ("three-cycle-trait-arg", "trait G:\n    def g(self) -> str: ...\n\nclass A extends B:\n    x: int\n\nclass B extends C:\n    y: int\n\nclass C extends A:\n    z: int\n\ndef w(g: G) -> str:\n    return g.g()\n\ndef main() -> None:\n    print(w(A(x=1)))\n    print(w(C(z=1)))\n"),
+        ("recursive-function-type", "def f(g: (int) -> int) -> int:\n    return f(f)\n"),
+        ("derive-cycle", "@derive(Eq, Ord, Hash)\nmodel P extends P:\n    a: int\n\ndef main() -> None:\n    print(P(a=1) < P(a=2))\n"),
+    ];
+    // the recorded finding: an error in an expression interpolated in an f-string is located relative to the
+    // interpolated text, here in the middle of a character of line 1
+    inputs.push(("known:fstring-nested-span".into(), "# \u{e9}\u{e9}\u{e9}\u{e9}\u{e9}\u{e9}\u{e9}\u{e9}\u{e9}\ndef main() -> None:\n    print(f\"{1 + zzz}\")\n".into()));
+    for (n, src) in odd {
+        inputs.push((format!("odd:{n}"), src.to_string()));
+    }
+    for (i, src) in graph_programs(&mut rng, if thorough { 1500 } else { 150 }).into_iter().enumerate() {
+        inputs.push((format!("graph:{i}"), src));
+    }
     for (name, src) in &files {
         inputs.push((format!("file:{name}"), src.clone()));
         // truncations at character boundaries
